@@ -6,13 +6,440 @@ ID = 'C16'
 COQ_PROPS = ['Props/C16.v']
 COQ_IMPORTS = ['Prims', 'CaseLib', 'BitsCore', 'SeqProofs', 'BitwiseProofs']
 RULE = ('pairs of contents of equal and unequal length (0, 1, 63..65, 127..129, random), self-operand cases (same object), four classes, promotable right operands, '
-        'pure and in-place forms, shift counts from -3 to beyond len and 2^70; non-trivial = both operands non-empty and not all-equal bits; distinct by arguments')
+        'pure and in-place forms, shift counts from -3 to beyond len and 2^70; operands that went through a derivation first (pickle protocols 2-5, deepcopy, copy, '
+        'containers, slices, re-wrapping through every class, conversions, reads, edit-and-restore histories, refused calls); shift counts as bool / IntEnum / IntFlag / int subclass / numpy integers; '
+        'law batteries (involution, idempotence, De Morgan, absorption, shift round trips, results used as operands again, in-place step sequences) judged by a str model; '
+        'non-trivial = both operands non-empty and not all-equal bits; distinct by arguments')
 ASSUMPTIONS = ['bitarray & | ^ ~ are element-wise with ValueError on length mismatch (modelled as map2; L0 by these cases)']
 OPS = ['and', 'or', 'xor']
 PYOP = {'and': lambda a, b: a & b, 'or': lambda a, b: a | b, 'xor': lambda a, b: a ^ b}
 
+
+# ---------------------------------------------------------------------------------------------------------------------------------
+# Operands with a history.  A bitstring that was pickled and restored, deep-copied, copied, sliced out whole, re-wrapped through
+# another class, converted and converted back, read from a stream, edited and restored, or that was the subject of a refused call
+# holds the same bits as before, so every clause of the property applies to it unchanged.  `derive` turns the freshly built
+# operand x into such an object of the same class (key 'derive' / 'oderive' of a case: a chain of one or two names).
+# ---------------------------------------------------------------------------------------------------------------------------------
+D_PICKLE = ['pickle2', 'pickle3', 'pickle4', 'pickle5', 'deepcopy', 'pickle_in_list', 'deepcopy_in_tuple', 'deepcopy_in_dict', 'pickle_twice', 'pickle_dump_lsb0', 'pickle_load_lsb0', 'deepcopy_of_copy']
+# (pickle protocols 0 and 1 refuse every class with __slots__ and no __getstate__: Python's own TypeError, not bitstring's behaviour)
+D_COPY = ['copy', 'copy_method', 'slice_all', 'slice_bounds', 'rewrap', 'via_Bits', 'via_BitArray', 'via_ConstBitStream', 'via_BitStream', 'add_empty', 'radd_empty',
+          'mul1', 'join1', 'tobitarray', 'tobytes', 'bin', 'unpack', 'cut', 'read_all', 'invert_twice_pure', 'shift0', 'and_self', 'or_self', 'xor_zeros']
+D_REFUSED = ['refused_binop', 'refused_shift', 'refused_rshift', 'refused_type', 'refused_inplace', 'refused_ishift']
+D_STREAM = ['pos_end', 'read_some']                                      # ConstBitStream / BitStream only
+D_MUT = ['append_del', 'prepend_del', 'invert_twice', 'reverse_twice', 'rol_ror', 'flip_restore', 'overwrite_same', 'clear_refill', 'iops_neutral', 'imul1', 'ishift_restore', 'setslice_same']   # BitArray / BitStream only
+DERIVATIONS = D_PICKLE + D_COPY + D_REFUSED + D_STREAM + D_MUT
+
+def _msb0(f):
+    """edit-and-restore histories are written for msb0 positions: run them with lsb0 off, whatever the case's mode"""
+    import bitstring
+    old = bitstring.options.lsb0
+    bitstring.options.lsb0 = False
+    try: return f()
+    finally: bitstring.options.lsb0 = old
+
+def _refuse(f):
+    try: f()
+    except Exception as e:
+        if isinstance(e, Hang): raise
+
+def derive1(x, d):
+    import bitstring, pickle, copy
+    C = type(x); n = len(x)
+    if d in ('pickle2', 'pickle3', 'pickle4', 'pickle5'): return pickle.loads(pickle.dumps(x, int(d[6:])))
+    if d == 'pickle_twice': return pickle.loads(pickle.dumps(pickle.loads(pickle.dumps(x))))
+    if d in ('pickle_dump_lsb0', 'pickle_load_lsb0'):
+        # written under one bit numbering, restored under the other: the bits (positions counted from the start of the data) are the same
+        old = bitstring.options.lsb0
+        try:
+            bitstring.options.lsb0 = d == 'pickle_dump_lsb0'
+            blob = pickle.dumps(x)
+            bitstring.options.lsb0 = d == 'pickle_load_lsb0'
+            return pickle.loads(blob)
+        finally: bitstring.options.lsb0 = old
+    if d == 'deepcopy_of_copy': return copy.deepcopy(copy.copy(x))
+    if d == 'pickle_in_list': return pickle.loads(pickle.dumps([x, 'k', x]))[2]
+    if d == 'deepcopy': return copy.deepcopy(x)
+    if d == 'deepcopy_in_tuple': return copy.deepcopy((x, 1, x))[0]
+    if d == 'deepcopy_in_dict': return copy.deepcopy({'k': [x]})['k'][0]
+    if d == 'copy': return copy.copy(x)
+    if d == 'copy_method': return x.copy()
+    if d == 'slice_all': return x[:]
+    if d == 'slice_bounds': return x[0:n]
+    if d == 'rewrap': return C(x)
+    if d.startswith('via_'): return C(getattr(bitstring, d[4:])(x))
+    if d == 'add_empty': return x + C()
+    if d == 'radd_empty': return C() + x
+    if d == 'mul1': return x * 1
+    if d == 'join1': return C().join([x])
+    if d == 'tobitarray': return C(x.tobitarray())
+    if d == 'tobytes': return C(bytes=x.tobytes(), length=n)
+    if d == 'bin': return C(bin=x.bin)
+    if d == 'unpack': return x.unpack('bits')[0]
+    if d == 'cut': return next(iter(x.cut(n))) if n else x
+    if d == 'read_all':
+        if not hasattr(x, 'read'): return x[:]
+        p = x.pos; x.pos = 0
+        try: return x.read(n)
+        finally: x.pos = p
+    # results of the operators themselves, used as operands again
+    if d == 'invert_twice_pure': return ~~x if n else x
+    if d == 'shift0': return (x << 0) if n else x
+    if d == 'and_self': return x & x
+    if d == 'or_self': return x | x
+    if d == 'xor_zeros': return x ^ C(n)
+    # a refused call on the object first
+    if d == 'refused_binop': _refuse(lambda: x & (x + '0b1')); _refuse(lambda: ('0b1' + x) | x); _refuse(lambda: x ^ C()) if n else None; return x
+    if d == 'refused_shift': _refuse(lambda: x << -1); return x
+    if d == 'refused_rshift': _refuse(lambda: x >> -2); return x
+    if d == 'refused_type': _refuse(lambda: x & 2.5); _refuse(lambda: x << 'a'); _refuse(lambda: x >> None); return x
+    if d == 'refused_inplace':
+        def g():
+            t = x
+            t &= (x + '0b1')
+        def h():
+            t = x
+            t ^= '0b1' + x.bin
+        _refuse(g); _refuse(h); return x
+    if d == 'refused_ishift':
+        def g():
+            t = x
+            t <<= -1
+        def h():
+            t = x
+            t >>= -1
+        _refuse(g); _refuse(h); return x
+    if d == 'pos_end': x.pos = n; return x
+    if d == 'read_some':
+        if n: x.pos = 0; x.read(min(3, n))
+        return x
+    # edit-and-restore histories on the object itself (mutable classes)
+    assert C.__name__ in MUTABLE, (d, C.__name__)
+    def hist():
+        if d == 'append_del': x.append('0b101'); del x[n:]
+        elif d == 'prepend_del': x.prepend('0b11'); del x[:2]
+        elif d == 'invert_twice': x.invert(); x.invert()
+        elif d == 'reverse_twice': x.reverse(); x.reverse()
+        elif d == 'rol_ror':
+            if n: x.rol(3); x.ror(3)
+        elif d == 'flip_restore':
+            if n: x.invert(0); x.invert(n - 1); x.invert(n - 1); x.invert(0)
+        elif d == 'overwrite_same':
+            if n: x.overwrite(bitstring.Bits(bin=x.bin), 0)
+        elif d == 'clear_refill':
+            b = x.bin; x.clear()
+            if b: x.append('0b' + b)
+        elif d == 'iops_neutral':
+            t = x
+            t &= bitstring.Bits(bin='1' * n); t |= bitstring.Bits(n); t ^= [0] * n
+        elif d == 'imul1':
+            t = x
+            t *= 1
+        elif d == 'ishift_restore':
+            # shift everything out, put the bits back by item assignment
+            b = x.bin
+            if n:
+                t = x
+                t <<= n
+                x[:] = '0b' + b
+        elif d == 'setslice_same':
+            if n: x[0:n] = '0b' + x.bin
+        else: raise AssertionError(d)
+    _msb0(hist)
+    return x
+
+def derive(x, ds, trail=None):
+    """apply the chain ds; every object on the way (x included) is appended to trail"""
+    if trail is not None: trail.append(x)
+    for d in ds or []:
+        x = derive1(x, d)
+        if trail is not None: trail.append(x)
+    return x
+
+def rand_derive(rng, cls, heavy=False):
+    """a chain of one (sometimes two) derivations applicable to class cls; the pickle / deepcopy family is drawn most often"""
+    def one():
+        r = rng.random()
+        if r < 0.45: return rng.choice(D_PICKLE)
+        if r < 0.75: return rng.choice(D_COPY)
+        if r < 0.87: return rng.choice(D_REFUSED)
+        if cls in MUTABLE and (r < 0.97 or 'Stream' not in cls): return rng.choice(D_MUT)
+        if 'Stream' in cls: return rng.choice(D_STREAM)
+        return rng.choice(D_PICKLE)
+    ds = [one()]
+    if rng.random() < (0.4 if heavy else 0.2): ds.append(one())
+    return ds
+
+# ---------------------------------------------------------------------------------------------------------------------------------
+# Integer arguments that are not plain ints.  A shift count is an integer: bool (True is 1, False is 0), an IntEnum / IntFlag
+# member, an instance of a subclass of int and the numpy integer scalars (registered numbers.Integral) all denote the number
+# they are equal to.  Key 'ntype' of a case says how the count c['n'] (always a plain int in the case) is presented.
+# ---------------------------------------------------------------------------------------------------------------------------------
+class IntSub(int):
+    """a plain subclass of int"""
+    __slots__ = ()
+
+class IntSubRepr(int):
+    """a subclass of int with its own repr/str (what a logging or units wrapper does); the number is unchanged"""
+    def __repr__(self): return f'<count {int(self)}>'
+    __str__ = __repr__
+
+NP_TYPES = {'np.int8': (-128, 127), 'np.int16': (-2 ** 15, 2 ** 15 - 1), 'np.int32': (-2 ** 31, 2 ** 31 - 1), 'np.int64': (-2 ** 63, 2 ** 63 - 1),
+            'np.uint8': (0, 255), 'np.uint16': (0, 2 ** 16 - 1), 'np.uint32': (0, 2 ** 32 - 1), 'np.uint64': (0, 2 ** 64 - 1)}
+NTYPES = ['bool', 'intsub', 'intsub_repr', 'intenum', 'intflag'] + list(NP_TYPES)
+
+# KNOWN_OPEN: combinations that are not generated because the unchanged library is known to get them wrong. Empty: the in-place right shift used to do
+# its slice arithmetic with the caller's count object (BitArray('0b10110') >>= numpy.uint8(2) gave 7 bits, -uint8(2) being 254; small signed types
+# overflowed) - repaired in /repo as D64, so every numpy integer type is generated for every shift form.
+KNOWN_OPEN = set()
+
+def have_numpy():
+    try:
+        import numpy  # noqa
+        return True
+    except Exception:
+        return False
+
+def ntype_ok(op, form, n, t):
+    if t is None: return True
+    if (op, form, t) in KNOWN_OPEN: return False
+    if t == 'bool': return n in (0, 1)
+    if t == 'intflag': return n >= 0
+    if t in NP_TYPES: return have_numpy() and NP_TYPES[t][0] <= n <= NP_TYPES[t][1]
+    return True
+
+def rand_ntype(rng, op, form, n):
+    ok = [t for t in NTYPES if ntype_ok(op, form, n, t)]
+    return rng.choice(ok)
+
+def as_count(n, t):
+    """the count n presented as an object of the kind t"""
+    import enum
+    if t is None: return n
+    if t == 'bool':
+        assert n in (0, 1)
+        return bool(n)
+    if t == 'intsub': return IntSub(n)
+    if t == 'intsub_repr': return IntSubRepr(n)
+    if t == 'intenum': return enum.IntEnum('Count', {'N': n}).N
+    if t == 'intflag': return enum.IntFlag('Flag', {'N': n}).N
+    if t in NP_TYPES:
+        import numpy
+        return getattr(numpy, t[3:])(n)
+    raise AssertionError(t)
+
+# ---------------------------------------------------------------------------------------------------------------------------------
+# Law batteries (op 'laws').  One pair of operands (y derived as above, o of any class / a string / y itself), one shift count;
+# every expression below is evaluated on the implementation and, independently, on a model of '0'/'1' strings; results of
+# operators are operands of further operators.  Then a sequence of augmented assignments on a second object built the same way.
+# ---------------------------------------------------------------------------------------------------------------------------------
+class MErr(Exception):
+    pass
+
+def m_not(v):
+    if not v[0]: raise MErr('BsError')
+    return (''.join('1' if x == '0' else '0' for x in v[0]), v[1])
+
+def m_bin(op, u, v):
+    if len(u[0]) != len(v[0]): raise MErr('ValueError')
+    f = {'and': lambda x, y: x == '1' and y == '1', 'or': lambda x, y: x == '1' or y == '1', 'xor': lambda x, y: x != y}[op]
+    return (''.join('1' if f(x, y) else '0' for x, y in zip(u[0], v[0])), u[1] or v[1])       # class of the left operand when it is a bitstring
+
+def m_shift(op, v, k):
+    if k < 0 or not v[0]: raise MErr('ValueError')
+    a = v[0]; m = min(k, len(a))
+    return ((a[m:] + '0' * m) if op == 'lshift' else ('0' * m + a[:len(a) - m]), v[1])
+
+def m_lit(v): return (v[0], None)         # the same bits as a plain string operand: no class of its own
+
+def _lit(o): return ('0b' + o.bin) if len(o) else ''
+
+LAWS = [
+    ('y',             lambda y, o, k: y,                        lambda Y, O, k: Y),
+    ('~y',            lambda y, o, k: ~y,                       lambda Y, O, k: m_not(Y)),
+    ('~~y',           lambda y, o, k: ~~y,                      lambda Y, O, k: m_not(m_not(Y))),
+    ('y&o',           lambda y, o, k: y & o,                    lambda Y, O, k: m_bin('and', Y, O)),
+    ('y|o',           lambda y, o, k: y | o,                    lambda Y, O, k: m_bin('or', Y, O)),
+    ('y^o',           lambda y, o, k: y ^ o,                    lambda Y, O, k: m_bin('xor', Y, O)),
+    ('o&y',           lambda y, o, k: o & y,                    lambda Y, O, k: m_bin('and', O, Y)),
+    ('o|y',           lambda y, o, k: o | y,                    lambda Y, O, k: m_bin('or', O, Y)),
+    ('o^y',           lambda y, o, k: o ^ y,                    lambda Y, O, k: m_bin('xor', O, Y)),
+    ('y^y',           lambda y, o, k: y ^ y,                    lambda Y, O, k: m_bin('xor', Y, Y)),
+    ('y&y',           lambda y, o, k: y & y,                    lambda Y, O, k: m_bin('and', Y, Y)),
+    ('y|y',           lambda y, o, k: y | y,                    lambda Y, O, k: m_bin('or', Y, Y)),
+    ('y&lit(y)',      lambda y, o, k: y & _lit(y),              lambda Y, O, k: m_bin('and', Y, m_lit(Y))),
+    ('lit(y)^y',      lambda y, o, k: _lit(y) ^ y,              lambda Y, O, k: m_bin('xor', m_lit(Y), Y)),
+    ('~y|~o',         lambda y, o, k: ~y | ~o,                  lambda Y, O, k: m_bin('or', m_not(Y), m_not(O))),
+    ('~(y&o)',        lambda y, o, k: ~(y & o),                 lambda Y, O, k: m_not(m_bin('and', Y, O))),
+    ('~y&~o',         lambda y, o, k: ~y & ~o,                  lambda Y, O, k: m_bin('and', m_not(Y), m_not(O))),
+    ('~(y|o)',        lambda y, o, k: ~(y | o),                 lambda Y, O, k: m_not(m_bin('or', Y, O))),
+    ('(y^o)^o',       lambda y, o, k: (y ^ o) ^ o,              lambda Y, O, k: m_bin('xor', m_bin('xor', Y, O), O)),
+    ('(y&o)|(y&~o)',  lambda y, o, k: (y & o) | (y & ~o),       lambda Y, O, k: m_bin('or', m_bin('and', Y, O), m_bin('and', Y, m_not(O)))),
+    ('y|(y&o)',       lambda y, o, k: y | (y & o),              lambda Y, O, k: m_bin('or', Y, m_bin('and', Y, O))),
+    ('~y^y',          lambda y, o, k: ~y ^ y,                   lambda Y, O, k: m_bin('xor', m_not(Y), Y)),
+    ('~y&y',          lambda y, o, k: ~y & y,                   lambda Y, O, k: m_bin('and', m_not(Y), Y)),
+    ('y<<k',          lambda y, o, k: y << k,                   lambda Y, O, k: m_shift('lshift', Y, k)),
+    ('y>>k',          lambda y, o, k: y >> k,                   lambda Y, O, k: m_shift('rshift', Y, k)),
+    ('(y<<k)>>k',     lambda y, o, k: (y << k) >> k,            lambda Y, O, k: m_shift('rshift', m_shift('lshift', Y, k), k)),
+    ('(y>>k)<<k',     lambda y, o, k: (y >> k) << k,            lambda Y, O, k: m_shift('lshift', m_shift('rshift', Y, k), k)),
+    ('~(y<<k)',       lambda y, o, k: ~(y << k),                lambda Y, O, k: m_not(m_shift('lshift', Y, k))),
+    ('(~y)>>k',       lambda y, o, k: (~y) >> k,                lambda Y, O, k: m_shift('rshift', m_not(Y), k)),
+    ('(y<<k)|(y>>k)', lambda y, o, k: (y << k) | (y >> k),      lambda Y, O, k: m_bin('or', m_shift('lshift', Y, k), m_shift('rshift', Y, k))),
+    ('(y&o)<<k',      lambda y, o, k: (y & o) << k,             lambda Y, O, k: m_shift('lshift', m_bin('and', Y, O), k)),
+    ('(y<<k)&(o<<k)', lambda y, o, k: (y << k) & (o << k),      lambda Y, O, k: m_bin('and', m_shift('lshift', Y, k), m_shift('lshift', O, k))),
+    ('(y>>k)^o',      lambda y, o, k: (y >> k) ^ o,             lambda Y, O, k: m_bin('xor', m_shift('rshift', Y, k), O)),
+]
+LAWS_STR_OK = {n for n, _, _ in LAWS if '~o' not in n and 'o<<' not in n}      # expressions that make sense when o is a plain string
+ISTEPS = ['iand_o', 'ior_o', 'ixor_o', 'iand_self', 'ior_self', 'ixor_self', 'ilshift', 'irshift', 'iand_lit', 'ixor_lit']
+
+def _view(r):
+    """what is observed of a result: bits, len(), class, unsigned value (non-empty results)"""
+    b = r.bin
+    return [b, len(r), type(r).__name__, (r.uint if len(r) else None)]
+
+def _probe(f):
+    try:
+        return ['ok'] + _view(f())
+    except Exception as e:
+        if isinstance(e, Hang): raise
+        return ['err', exn_name(e)]
+
+def run_laws(c):
+    import bitstring
+    mode = c.get('lsb0', False)
+    def make():
+        x = build(c['cls'], c['a'], c.get('route', 'bin'), c.get('pos'))
+        trail = []
+        bitstring.options.lsb0 = c.get('dlsb0', False)          # the derivation itself under either numbering
+        try: y = derive(x, c.get('derive'), trail)
+        finally: bitstring.options.lsb0 = False
+        return trail, y
+    def f():
+        tr, y = make()
+        if c['other'] == 'self': o = y
+        elif c['other'] in CLASSES: o = derive(build(c['other'], c['b'], 'bin'), c.get('oderive'))
+        else: o = promotable(c['b'], c['other'])
+        p0 = getattr(y, 'pos', None)
+        bitstring.options.lsb0 = mode
+        res = []
+        for name, impl, _ in LAWS:
+            if isinstance(o, str) and name not in LAWS_STR_OK: continue
+            k = as_count(c['k'], c.get('ntype'))                # a fresh count object every time
+            res.append([name] + _probe(lambda: impl(y, o, k)))
+        bitstring.options.lsb0 = False
+        after = [y.bin, len(y), type(y).__name__, getattr(y, 'pos', None) == p0, (o.bin if hasattr(o, 'bin') else None), [z.bin for z in tr]]
+        # augmented assignments, one after the other, on a second object built and derived in the same way
+        tr2, t = make()
+        t0 = t
+        bitstring.options.lsb0 = mode
+        steps = []
+        for st in c.get('isteps', []):
+            k = as_count(c['k'], c.get('ntype'))
+            try:
+                if st == 'iand_o': t &= o
+                elif st == 'ior_o': t |= o
+                elif st == 'ixor_o': t ^= o
+                elif st == 'iand_self': t &= t
+                elif st == 'ior_self': t |= t
+                elif st == 'ixor_self': t ^= t
+                elif st == 'iand_lit': t &= _lit(t)
+                elif st == 'ixor_lit': t ^= ('0b' + '1' * len(t)) if len(t) else ''
+                elif st == 'ilshift': t <<= k
+                elif st == 'irshift': t >>= k
+                else: raise AssertionError(st)
+                steps.append([st, 'ok'] + _view(t))
+            except Exception as e:
+                if isinstance(e, Hang): raise
+                steps.append([st, 'err', exn_name(e)] + _view(t))
+        bitstring.options.lsb0 = False
+        return {'res': res, 'after': after, 'steps': steps, 'end': [t0.bin, len(t0), [z.bin for z in tr2 if z is not t0], (o.bin if hasattr(o, 'bin') else None)]}
+    return attempt(f, 10)
+
+def oracle_laws(c, obs):
+    a, b, cls, k = c['a'], c['b'], c['cls'], c['k']
+    who = f"{cls}({a!r}) [route {c.get('route', 'bin')}, derived by {c.get('derive')}{', lsb0' if c.get('lsb0') else ''}] with {c['other']}({b!r}){' derived by ' + str(c['oderive']) if c.get('oderive') else ''}, k = {k}{' as ' + c['ntype'] if c.get('ntype') else ''}"
+    if obs[0] != 'ok': return f"{who}: building / deriving the operands or the battery itself raised {obs}"
+    r = obs[1]
+    Y = (a, cls)
+    O = Y if c['other'] == 'self' else (b, c['other'] if c['other'] in CLASSES else None)
+    models = {n: m for n, _, m in LAWS}
+    for name, *got in r['res']:
+        try: exp = models[name](Y, O, k)
+        except MErr as e: exp = e.args[0]
+        if isinstance(exp, str):
+            if got != ['err', exp]: return f"{who}: {name} must raise {exp}, got {str(got)[:200]}"
+            continue
+        eb, ec = exp
+        if got[0] != 'ok': return f"{who}: {name} raised {got[1]}; the per-bit model gives {eb!r}"
+        if got[1] != eb: return f"{who}: {name} = {got[1]!r}, the per-bit model gives {eb!r}"
+        if got[2] != len(eb): return f"{who}: len({name}) = {got[2]}, expected {len(eb)} (.bin has {len(got[1])} bits)"
+        if got[3] != ec: return f"{who}: {name} is a {got[3]}, expected {ec}"
+        if eb and got[4] != int(eb, 2): return f"{who}: ({name}).uint = {got[4]}, the integer model gives {int(eb, 2)}"
+    af = r['after']
+    if af[0] != a or af[1] != len(a) or af[2] != cls: return f"{who}: the operand was modified by the non-in-place operators: now {af[:3]}"
+    if not af[3]: return f"{who}: the operators moved the operand's pos"
+    if af[4] is not None and af[4] != (a if c['other'] == 'self' else b): return f"{who}: the other operand was modified: now {af[4]!r}"
+    if any(z != a for z in af[5]): return f"{who}: an object the operand was derived from was modified by the non-in-place operators: now {af[5]}"
+    # the augmented assignments
+    T = Y
+    done = []
+    for st, status, *rest in r['steps']:
+        try:
+            if st in ('ilshift', 'irshift'): E = m_shift(st[1:], T, k)
+            else:
+                opn, what = st[1:].split('_')
+                other = {'o': O, 'self': T, 'lit': m_lit(T) if opn == 'and' else ('1' * len(T[0]), None)}[what]
+                E = m_bin(opn, T, other)
+        except MErr as e:
+            E = e.args[0]
+        if isinstance(E, str):
+            if status != 'err' or rest[0] != E: return f"{who}: after the steps {done} the step {st} on {T[0]!r} must raise {E}, got {status} {str(rest)[:160]}"
+            if rest[1] != T[0]: return f"{who}: the refused step {st} changed the bitstring to {rest[1]!r} (was {T[0]!r})"
+            done.append(st)
+            continue
+        if status != 'ok': return f"{who}: after the steps {done} the in-place step {st} on {T[0]!r} raised {rest[0]}; the per-bit model gives {E[0]!r}"
+        if rest[0] != E[0] or rest[1] != len(E[0]) or rest[2] != cls or (E[0] and rest[3] != int(E[0], 2)):
+            return f"{who}: after the steps {done} the in-place step {st} on {T[0]!r} gave {str(rest)[:200]}; the per-bit model gives {E[0]!r} ({cls}, {len(E[0])} bits)"
+        T = (E[0], cls)
+        done.append(st)
+    en = r['end']
+    if cls in MUTABLE:
+        if en[0] != T[0]: return f"{who}: after the in-place steps {c.get('isteps')} the object holds {en[0]!r}, the model {T[0]!r} (the name was rebound to another object?)"
+    elif en[0] != a: return f"{who}: augmented assignment on an immutable {cls} changed the object itself: {en[0]!r}"
+    if any(z != a for z in en[2]): return f"{who}: the in-place steps {c.get('isteps')} on the derived object changed an object it was derived from: {en[2]}"
+    if en[3] is not None and c['other'] != 'self' and en[3] != b: return f"{who}: the in-place steps changed their right operand: {en[3]!r}"
+    return None
+
+LAW_LENGTHS = [1, 2, 3, 4, 5, 6, 7, 9, 10, 11, 12, 13, 14, 15, 17, 18, 23, 25, 31, 33, 47, 63, 65, 127, 129, 8, 16, 24, 32, 64, 128, 0]
+
+def gen_laws(rng, tier, n):
+    for _ in range(n):
+        r = rng.random()
+        l = rng.choice(LAW_LENGTHS) if r < 0.75 else (rng.randrange(1, 260) if r < 0.96 or tier == 'quick' else rng.choice([999, 1001, 2001, 4099]))
+        a = rand_bits(rng, l)
+        cls = rng.choice(CLASSES)
+        other = rng.choice(CLASSES + CLASSES + ['str', 'self'])
+        b = a if other == 'self' else rand_bits(rng, l if rng.random() < 0.93 else max(0, l + rng.choice([-1, 1, 8])))
+        k = rng.choice([0, 1, 1, 0, 2, 3, 7, 8, 9, max(l - 1, 0), l, l + 1, rng.randrange(0, l + 2), -1, 1 << 70])
+        c = {'op': 'laws', 'cls': cls, 'a': a, 'b': b, 'other': other, 'k': k, 'derive': rand_derive(rng, cls, heavy=True) if rng.random() < 0.9 else [],
+             'route': rng.choice(ROUTES) if rng.random() < 0.3 else 'bin', 'pos': rng.choice([None, None, 0, l // 2, l]), 'lsb0': rng.random() < 0.3, 'dlsb0': rng.random() < 0.15,
+             'isteps': [rng.choice(ISTEPS) for _ in range(rng.randrange(0, 5))]}
+        if other in CLASSES and rng.random() < 0.5: c['oderive'] = rand_derive(rng, other)
+        if rng.random() < 0.5:
+            # the count as a non-plain integer; it is used by pure and in-place shifts of the battery alike, so it must be allowed for all of them
+            ok = [t for t in NTYPES if all(ntype_ok(op, form, k, t) for op in ('lshift', 'rshift') for form in ('pure', 'inplace'))]
+            c['ntype'] = rng.choice(ok)
+        yield c
+
 def gen_cases(rng, tier):
     N = 500 if tier == 'quick' else 8000
+    def with_history(c, other=None):
+        """about a third of the cases apply the operator to operands that went through a derivation first"""
+        if rng.random() < 0.35:
+            c['derive'] = rand_derive(rng, c['cls'])
+            if rng.random() < 0.2: c['dlsb0'] = True
+        if other in CLASSES and rng.random() < 0.25: c['oderive'] = rand_derive(rng, other)
+        return c
     for _ in range(N):
         l = rand_len(rng, tier)
         a = rand_bits(rng, l)
@@ -22,12 +449,14 @@ def gen_cases(rng, tier):
         other = rng.choice(CLASSES + ['str', 'list', 'bitarray', 'self', 'self', 'gen_truthy', 'iter'])
         form = rng.choice(['pure', 'pure', 'inplace', 'reflected'])
         if other == 'bitarray' and form == 'reflected': form = 'pure'   # bitarray.__and__(Bits) raises TypeError itself: not bitstring's behaviour
-        yield {'op': rng.choice(OPS), 'cls': rng.choice(CLASSES), 'a': a, 'b': a if other == 'self' else b, 'other': other,
-               'form': form, 'pos': rng.choice([None, 0, l // 2, l]), 'lsb0': rng.random() < 0.3, 'route': rng.choice(ROUTES) if rng.random() < 0.5 else 'bin'}
-        yield {'op': 'invert', 'cls': rng.choice(CLASSES), 'a': a, 'lsb0': rng.random() < 0.3, 'route': rng.choice(ROUTES) if rng.random() < 0.5 else 'bin'}
-        n = rng.choice([-3, -1, 0, 1, 2, 7, 8, l - 1, l, l + 1, 2 * l + 3, rng.randrange(0, l + 2), 1 << 70])
-        yield {'op': rng.choice(['lshift', 'rshift']), 'cls': rng.choice(CLASSES), 'a': a, 'n': n, 'form': rng.choice(['pure', 'inplace']), 'route': rng.choice(ROUTES) if rng.random() < 0.4 else 'bin',
-               'pos': rng.choice([None, 0, l // 2, l]), 'lsb0': rng.random() < 0.4}
+        yield with_history({'op': rng.choice(OPS), 'cls': rng.choice(CLASSES), 'a': a, 'b': a if other == 'self' else b, 'other': other,
+               'form': form, 'pos': rng.choice([None, 0, l // 2, l]), 'lsb0': rng.random() < 0.3, 'route': rng.choice(ROUTES) if rng.random() < 0.5 else 'bin'}, other)
+        yield with_history({'op': 'invert', 'cls': rng.choice(CLASSES), 'a': a, 'lsb0': rng.random() < 0.3, 'route': rng.choice(ROUTES) if rng.random() < 0.5 else 'bin'})
+        n = rng.choice([-3, -1, 0, 1, 2, 7, 8, l - 1, l, l + 1, 2 * l + 3, rng.randrange(0, l + 2), 1 << 70, 0, 1])
+        c = with_history({'op': rng.choice(['lshift', 'rshift']), 'cls': rng.choice(CLASSES), 'a': a, 'n': n, 'form': rng.choice(['pure', 'inplace']), 'route': rng.choice(ROUTES) if rng.random() < 0.4 else 'bin',
+               'pos': rng.choice([None, 0, l // 2, l]), 'lsb0': rng.random() < 0.4})
+        if rng.random() < 0.4: c['ntype'] = rand_ntype(rng, c['op'], c['form'], n)       # the count as bool / IntEnum / IntFlag / int subclass / numpy integer
+        yield c
     for l in range(0, 4):
         for v in range(1 << l):
             a = format(v, f'0{l}b') if l else ''
@@ -35,9 +464,37 @@ def gen_cases(rng, tier):
                 for op in ('lshift', 'rshift'):
                     yield {'op': op, 'cls': 'BitArray', 'a': a, 'n': n, 'form': 'pure'}
                     yield {'op': op, 'cls': 'BitArray', 'a': a, 'n': n, 'form': 'inplace', 'lsb0': True}
+    # every kind of count object with every small value, on every class, pure and in place, both directions (True / False included; empty and 1-bit contents too)
+    conts = ['', '1', '0', '10', '011', '10110', '110100101', '1' * 8, '1' + '0' * 15 + '1'] + ([] if tier == 'quick' else ['1' * 63, '1' + '0' * 63 + '1', rand_bits(rng, 129, 'rand')])
+    for t in NTYPES:
+        for n in (0, 1, 2, -1) if tier == 'quick' else (0, 1, 2, 3, 8, 9, 64, -1, -2):
+            for op in ('lshift', 'rshift'):
+                for form in ('pure', 'inplace'):
+                    if not ntype_ok(op, form, n, t): continue
+                    classes = CLASSES if form == 'pure' else MUTABLE
+                    for cls in (classes if t == 'bool' or tier != 'quick' else [rng.choice(classes)]):
+                        for a in (conts if t == 'bool' else [rng.choice(conts[1:])] if tier == 'quick' else [rng.choice(conts) for _ in range(4)]):
+                            yield {'op': op, 'cls': cls, 'a': a, 'n': n, 'ntype': t, 'form': form, 'lsb0': rng.random() < 0.3, 'pos': rng.choice([None, len(a)])}
+    # every derivation on every class with a length that is not a whole number of bytes (and one that is), all operators
+    for d in DERIVATIONS:
+        for cls in CLASSES:
+            if d in D_MUT and cls not in MUTABLE or d in D_STREAM and 'Stream' not in cls: continue
+            for l in ([rng.choice([3, 5, 13, 18, 65]), rng.choice([8, 16, 64])] if tier == 'quick' else [1, 3, 7, 8, 13, 18, 31, 64, 65, 130]):
+                a = rand_bits(rng, l, 'rand'); b = rand_bits(rng, l, 'rand')
+                lsb0 = rng.random() < 0.25
+                sel = rng.randrange(4)
+                if tier != 'quick' or sel == 0: yield {'op': 'invert', 'cls': cls, 'a': a, 'derive': [d], 'lsb0': lsb0}
+                if tier != 'quick' or sel == 1:
+                    yield {'op': rng.choice(OPS), 'cls': cls, 'a': a, 'b': b, 'other': rng.choice(CLASSES), 'form': rng.choice(['pure', 'reflected', 'inplace'] if cls in MUTABLE else ['pure', 'reflected']),
+                           'pos': None, 'derive': [d], 'lsb0': lsb0}
+                if tier != 'quick' or sel == 2:
+                    yield {'op': rng.choice(OPS), 'cls': rng.choice(CLASSES), 'a': b, 'b': a, 'other': cls, 'form': rng.choice(['pure', 'reflected']), 'pos': None, 'oderive': [d], 'lsb0': lsb0}
+                if tier != 'quick' or sel == 3:
+                    yield {'op': rng.choice(['lshift', 'rshift']), 'cls': cls, 'a': a, 'n': rng.choice([0, 1, 2, l - 1, l]), 'form': rng.choice(['pure', 'inplace']), 'derive': [d], 'lsb0': lsb0, 'pos': None}
+    yield from gen_laws(rng, tier, 260 if tier == 'quick' else 5000)
 
 def kind(c):
-    return c['op'] + ':' + c.get('form', '')
+    return c['op'] + ':' + c.get('form', '') + ('+derived' if c.get('derive') or c.get('oderive') else '') + ('+count:' + c['ntype'] if c.get('ntype') else '')
 
 def under_mode(c, f):
     """run f with options.lsb0 as the case says (operands are built under msb0): the operators and shifts do not depend on the mode"""
@@ -50,9 +507,17 @@ def under_mode(c, f):
 
 def run_impl(c):
     op = c['op']
+    if op == 'laws': return run_laws(c)
     s = build(c['cls'], c['a'], c.get('route', 'bin'), c.get('pos'))        # the left operand through any construction route (files included)
+    orig = s
+    if c.get('derive'):
+        import bitstring
+        bitstring.options.lsb0 = c.get('dlsb0', False)                      # ... and then through a derivation that keeps bits and class (under either numbering)
+        try: s = derive(s, c['derive'])
+        finally: bitstring.options.lsb0 = False
+    p0 = getattr(s, 'pos', None)
     if op in OPS:
-        other = s if c['other'] == 'self' else (build(c['other'], c['b'], 'bin') if c['other'] in CLASSES else promotable(c['b'], c['other']))
+        other = s if c['other'] == 'self' else (derive(build(c['other'], c['b'], 'bin'), c.get('oderive')) if c['other'] in CLASSES else promotable(c['b'], c['other']))
         def f():
             if c['form'] == 'inplace':
                 if c['cls'] not in MUTABLE: return ['skip']
@@ -60,26 +525,27 @@ def run_impl(c):
                 if op == 'and': t &= other
                 elif op == 'or': t |= other
                 else: t ^= other
-                return [t.bin, type(t).__name__, None, None, t is s]
+                return [t.bin, type(t).__name__, None, None, t is s, None, None, None, len(t), None, (orig.bin if orig is not s else None)]
             r = PYOP[op](s, other) if c['form'] == 'pure' else PYOP[op](other, s)
             ob = other.bin if hasattr(other, 'bin') else None
-            return [r.bin, type(r).__name__, s.bin, ob, r is s, getattr(s, 'pos', None), getattr(r, 'pos', None)]
+            return [r.bin, type(r).__name__, s.bin, ob, r is s, getattr(s, 'pos', None), getattr(r, 'pos', None), p0, len(r), len(s)]
         return attempt(under_mode(c, f))
     if op == 'invert':
         def f():
             r = ~s
-            return [r.bin, type(r).__name__, s.bin]
+            return [r.bin, type(r).__name__, s.bin, len(r), len(s)]
         return attempt(under_mode(c, f))
     if op in ('lshift', 'rshift'):
         def f():
+            n = as_count(c['n'], c.get('ntype'))
             if c['form'] == 'inplace':
                 if c['cls'] not in MUTABLE: return ['skip']
                 t = s
-                if op == 'lshift': t <<= c['n']
-                else: t >>= c['n']
-                return [t.bin, type(t).__name__, None]
-            r = (s << c['n']) if op == 'lshift' else (s >> c['n'])
-            return [r.bin, type(r).__name__, s.bin]
+                if op == 'lshift': t <<= n
+                else: t >>= n
+                return [t.bin, type(t).__name__, None, len(t), t is s, (orig.bin if orig is not s else None)]
+            r = (s << n) if op == 'lshift' else (s >> n)
+            return [r.bin, type(r).__name__, s.bin, len(r), len(s)]
         return attempt(under_mode(c, f))
 
 def intop(op, a, b):
@@ -87,39 +553,62 @@ def intop(op, a, b):
     v = {'and': x & y, 'or': x | y, 'xor': x ^ y}[op]
     return format(v, f'0{len(a)}b')
 
+def hist(c):
+    """how the operands of the case came about, for the messages"""
+    t = ''
+    if c.get('route', 'bin') != 'bin': t += f" built by route {c['route']}"
+    if c.get('derive'): t += f" then derived by {'+'.join(c['derive'])}" + (' (under lsb0)' if c.get('dlsb0') else '')
+    if c.get('oderive'): t += f"; other operand derived by {'+'.join(c['oderive'])}"
+    if c.get('lsb0'): t += '; lsb0'
+    return t
+
 def oracle(c, obs):
     op, a = c['op'], c['a']
     if obs == ('ok', ['skip']): return None
+    if op == 'laws': return oracle_laws(c, obs)
     if op in OPS:
         b = c['b']
         if len(a) != len(b):
-            return None if obs == ('err', 'ValueError') else f"{c['cls']}({len(a)} bits) {op} {c['other']}({len(b)} bits) must raise ValueError, got {str(obs)[:200]}"
+            return None if obs == ('err', 'ValueError') else f"{c['cls']}({len(a)} bits) {op} {c['other']}({len(b)} bits){hist(c)} must raise ValueError, got {str(obs)[:200]}"
         exp = intop(op, a, b) if a else ''
-        if obs[0] != 'ok': return f"{op} on equal lengths raised {obs}"
+        if obs[0] != 'ok': return f"{c['cls']}({a!r}) {op}[{c['form']}] {c['other']}({b!r}){hist(c)}: equal lengths, raised {obs}"
         r = obs[1]
         rc = c['cls'] if (c['form'] != 'reflected' or c['other'] not in CLASSES) else c['other']
         if c['form'] == 'reflected' and c['other'] in CLASSES + ['self']: rc = c['cls'] if c['other'] == 'self' else c['other']
-        if r[0] != exp: return f"{c['cls']}({a!r}) {op}[{c['form']}] {c['other']}({b!r}) = {r[0]!r}, integer model gives {exp!r}"
-        if r[1] != rc: return f"{op}[{c['form']}] {c['cls']} with {c['other']} returned class {r[1]}, expected {rc}"
+        if r[0] != exp: return f"{c['cls']}({a!r}) {op}[{c['form']}] {c['other']}({b!r}){hist(c)} = {r[0]!r}, integer model gives {exp!r}"
+        if r[1] != rc: return f"{op}[{c['form']}] {c['cls']} with {c['other']}{hist(c)} returned class {r[1]}, expected {rc}"
+        if len(r) > 8 and r[8] != len(a): return f"{c['cls']}({a!r}) {op}[{c['form']}] {c['other']}({b!r}){hist(c)}: len() of the result is {r[8]}, expected {len(a)}"
+        if len(r) > 10 and r[10] not in (None, a): return f"{c['cls']}({a!r}) {op}[inplace] {c['other']}({b!r}){hist(c)}: the in-place operator on the derived object changed the object it was derived from: {r[10]!r}"
         if c['form'] != 'inplace':
-            if r[2] != a or (r[3] is not None and r[3] != b): return f"{op} modified an operand: {r}"
-            if c.get('pos') is not None and len(r) > 5 and r[5] is not None and r[5] != c['pos']:
-                return f"{c['cls']}(pos={c['pos']}) {op} {c['other']}: the operator moved the operand's pos to {r[5]}"
-            if len(r) > 6 and r[6] not in (None, 0): return f"{op} result stream starts at pos {r[6]}, expected 0"
+            if r[2] != a or (r[3] is not None and r[3] != b) or (len(r) > 9 and r[9] != len(a)): return f"{op}{hist(c)} modified an operand: {r}"
+            p0 = r[7] if len(r) > 7 else c.get('pos')           # the operand's pos just before the operator
+            if p0 is not None and r[5] is not None and r[5] != p0:
+                return f"{c['cls']}(pos={p0}) {op} {c['other']}{hist(c)}: the operator moved the operand's pos to {r[5]}"
+            if len(r) > 6 and r[6] not in (None, 0): return f"{op}{hist(c)} result stream starts at pos {r[6]}, expected 0"
         return None
     if op == 'invert':
-        if not a: return None if obs == ('err', 'BsError') else f"~ of empty {c['cls']} must raise Error, got {obs}"
+        if not a: return None if obs == ('err', 'BsError') else f"~ of empty {c['cls']}{hist(c)} must raise Error, got {obs}"
         exp = ''.join('1' if x == '0' else '0' for x in a)
-        return None if obs == ('ok', [exp, c['cls'], a]) else f"~{c['cls']}({a!r}) gave {str(obs)[:200]}"
+        if obs[0] != 'ok': return f"~{c['cls']}({a!r}){hist(c)} raised {obs}; the per-bit model gives {exp!r}"
+        r = obs[1]
+        if r[0] != exp or r[3] != len(a): return f"~{c['cls']}({a!r}){hist(c)} = {r[0]!r} (len() says {r[3]} bits); the per-bit model gives {exp!r} ({len(a)} bits)"
+        if r[1] != c['cls']: return f"~{c['cls']}{hist(c)} returned class {r[1]}"
+        if r[2] != a or r[4] != len(a): return f"~{c['cls']}({a!r}){hist(c)} modified its operand: now {r[2]!r} ({r[4]} bits)"
+        return None
     n = c['n']
+    cnt = f"{n}" + (f" given as {c['ntype']}" if c.get('ntype') else '')
     if n < 0 or not a:
-        return None if obs == ('err', 'ValueError') else f"{c['cls']}({a!r}) {op} {n} must raise ValueError, got {str(obs)[:200]}"
+        return None if obs == ('err', 'ValueError') else f"{c['cls']}({a!r}) {op}[{c['form']}] {cnt}{hist(c)} must raise ValueError, got {str(obs)[:200]}"
     L = len(a); x = int(a, 2)
     m = min(n, L + 1)
     v = ((x << m) & ((1 << L) - 1)) if op == 'lshift' else (x >> m)
     exp = format(v, f'0{L}b')
-    if obs[0] != 'ok' or obs[1][0] != exp or obs[1][1] != c['cls'] or (obs[1][2] is not None and obs[1][2] != a):
-        return f"{c['cls']}({a!r}) {op}[{c['form']}] {n} gave {str(obs)[:200]}, integer model gives {exp!r}"
+    if obs[0] != 'ok' or obs[1][0] != exp or obs[1][1] != c['cls'] or (obs[1][2] is not None and obs[1][2] != a) or obs[1][3] != L:
+        return f"{c['cls']}({a!r}) {op}[{c['form']}] {cnt}{hist(c)} gave {str(obs)[:200]}, integer model gives {exp!r} ({L} bits)"
+    if c['form'] == 'inplace' and len(obs[1]) > 5 and obs[1][5] not in (None, a):
+        return f"{c['cls']}({a!r}) {op}[inplace] {cnt}{hist(c)}: the in-place shift of the derived object changed the object it was derived from: {obs[1][5]!r}"
+    if c['form'] == 'inplace' and obs[1][4] is not True: return f"{c['cls']}({a!r}) {op}[inplace] {cnt}{hist(c)} returned another object, not the shifted one"
+    if c['form'] != 'inplace' and obs[1][4] != L: return f"{c['cls']}({a!r}) {op} {cnt}{hist(c)} changed the length of its operand to {obs[1][4]}"
 
 def nontrivial(c, obs):
     return len(c['a']) > 1 and '0' in c['a'] and '1' in c['a']
@@ -132,6 +621,8 @@ def classify(c, obs):
 def coq_check(c, obs):
     op, a = c['op'], c['a']
     if obs == ('ok', ['skip']): return None
+    if op == 'laws': return None          # compound expressions and step sequences: the str model of oracle_laws decides
+    # (derivations keep the bits and a count object denotes the plain integer c['n'], so the model terms below are the same with or without them)
     o = ('ok', obs[1][0]) if obs[0] == 'ok' else obs
     if op in OPS:
         same = cbool(c['other'] == 'self' and c['form'] != 'inplace')
